@@ -69,8 +69,8 @@ impl Property for C29 {
 
     fn runs(&self, tier: Tier) -> u64 {
         match tier {
-            Tier::Quick => 16 * 60,
-            Tier::Thorough => 16 * 4000,
+            Tier::Quick => 16 * 200,
+            Tier::Thorough => 16 * 20_000,
         }
     }
 
